@@ -265,7 +265,22 @@ func (x *Exec) lemmaObligations(fi *ufunInfo, ai int, ax *UAxiom) {
 	ihBody := evalP(ihVars)
 	ih := ihBody
 	if len(decl) > 0 {
-		ih = Term{S: fmt.Sprintf("(forall (%s) %s)", strings.Join(decl, " "), ihBody.S), Sort: SBool, N: ihBody.N + 2, UB: -1}
+		pat := ""
+		if len(ax.Triggers) > 0 {
+			var ps []string
+			env := &Env{x: x, st: nil, vars: ihVars}
+			for _, te := range ax.Triggers {
+				var local []Term
+				c.qscope = &local
+				tv := env.eval(te)
+				c.qscope = nil
+				ps = append(ps, tv.L[0].S)
+			}
+			pat = " :pattern (" + strings.Join(ps, " ") + ")"
+			ih = Term{S: fmt.Sprintf("(forall (%s) (! %s%s))", strings.Join(decl, " "), ihBody.S, pat), Sort: SBool, N: ihBody.N + 2, UB: -1}
+		} else {
+			ih = Term{S: fmt.Sprintf("(forall (%s) %s)", strings.Join(decl, " "), ihBody.S), Sort: SBool, N: ihBody.N + 2, UB: -1}
+		}
 	}
 	v1, _ := mkVars(false, k1)
 	noWrap := and(c.Cmp(token.LEQ, zero, k0, kT), c.Cmp(token.LSS, k0, k1, kT), c.RangeFact(k0, kT))
